@@ -254,8 +254,10 @@ def make_fn(tier):
                     nodes = list(P)
                     nodes[i], nodes[j] = a, b
                     offer(root, tuple(nodes), "alt2", want)
-            # 5. unknown root, blank root
+            # 5. unknown root, blank root, other well-known hashes nobody supplied a node for
             offer(UNKNOWN_ROOT, P, "unknown_root")
+            for sentinel in (mpt.keccak(b""), b"\x00" * 32, mpt.keccak(b"\x00")):
+                offer(sentinel, P, "sentinel_root")
             if root != mpt.BLANK_ROOT:
                 offer(mpt.BLANK_ROOT, P, "blank_root", b"")
             # 6. other tries: neighbour's proof against this root, this proof against the neighbour's root, mixed
